@@ -48,7 +48,11 @@ ROUNDS = [("/tmp/det_all.log", "round 1 (machinery as first built, commit ba9e68
           ("/tmp/try_w5a.log", "wave 5, first evaluation with the machinery frozen at commit 7e0a4e5 (descriptions not used)"),
           ("/tmp/try_w5b.log", "wave 5, first evaluation with the machinery frozen at commit 7e0a4e5 (descriptions not used)"),
           ("/tmp/try_w5c.log", "final machinery (after the strengthening that followed wave 5)"),
-          ("/tmp/try_w5d.log", "final machinery (after the strengthening that followed wave 5)")]
+          ("/tmp/try_w5d.log", "final machinery (after the strengthening that followed wave 5)"),
+          ("/tmp/try_w6a.log", "wave 5 (second half), first evaluation with the machinery frozen at commit bb3faa1 (descriptions not used)"),
+          ("/tmp/try_w6b.log", "wave 5 (second half), first evaluation with the machinery frozen at commit bb3faa1 (descriptions not used)"),
+          ("/tmp/try_w6c.log", "final machinery (commit 84969d3)"),
+          ("/tmp/try_w6d.log", "final machinery (commit 84969d3)")]
 det = []
 base = os.path.basename(patchfile)
 for f, label in ROUNDS:
